@@ -38,12 +38,30 @@ type Case struct {
 	Backend string       `json:"backend"`
 	Tree    treegen.Tree `json:"tree"`
 	Limits  bool         `json:"generous_limits"`
+	// Recursive: the generous limits apply recursively (the trees hold no real archive, only files that are named like one)
+	Recursive bool `json:"recursive_limits,omitempty"`
+	// Root: name of the directory that is archived (default "src"); may be the name of a directory inside the tree
+	Root string `json:"root_name,omitempty"`
 	View    string       `json:"view,omitempty"` // views test: zip | tar
 	// RereadTar re-reads file contents through the tar view a second time (only set by the replay of C07-R27)
 	RereadTar bool `json:"reread_tar,omitempty"`
 }
 
 func generous() filesystem.ILimits { return filesystem.NewLimits(1<<30, 1<<34, 1<<20, -1, false) }
+
+func (c Case) limits() filesystem.ILimits {
+	if c.Recursive {
+		return filesystem.NewLimits(1<<30, 1<<34, 1<<20, -1, true)
+	}
+	return generous()
+}
+
+func (c Case) root() string {
+	if c.Root != "" {
+		return c.Root
+	}
+	return "src"
+}
 
 func genTree(t *rapid.T, forTar bool) treegen.Tree {
 	o := treegen.Options{MaxDepth: 6, MaxEntries: 40, BigFiles: true, Mtimes: true, KeepFileInEveryDir: false}
@@ -87,18 +105,18 @@ func nontrivial(tr treegen.Tree) bool {
 func checkRoundTrip(t ev.T, test string, c Case) {
 	box := fsbox.New(c.Backend)
 	defer box.Close()
-	src, arch, out := box.Path("src"), box.Path("a.zip"), box.Path("out")
+	src, arch, out := box.Path("in", c.root()), box.Path("a.zip"), box.Path("out")
 	if err := c.Tree.Write(box.Raw, src); err != nil {
 		// names too long for the OS etc.: not a case
 		ev.Inconclusive("tree could not be written: " + firstWords(err.Error()))
 		return
 	}
-	want := box.Snap("src")
+	want := box.Snap("in/" + c.root())
 	var zerr, uerr error
 	var list []string
 	ev.Guard(t, prop, test, c, func() {
 		if c.Limits {
-			zerr = box.FS.ZipWithContextAndLimits(context.Background(), src, arch, generous())
+			zerr = box.FS.ZipWithContextAndLimits(context.Background(), src, arch, c.limits())
 		} else {
 			zerr = box.FS.Zip(src, arch)
 		}
@@ -108,7 +126,7 @@ func checkRoundTrip(t ev.T, test string, c Case) {
 	}
 	ev.Guard(t, prop, test, c, func() {
 		if c.Limits {
-			list, uerr = box.FS.UnzipWithContextAndLimits(context.Background(), arch, out, generous())
+			list, uerr = box.FS.UnzipWithContextAndLimits(context.Background(), arch, out, c.limits())
 		} else {
 			list, uerr = box.FS.Unzip(arch, out)
 		}
@@ -627,6 +645,38 @@ func TestRoundTrip(t *testing.T) {
 	rapid.Check(t, func(rt *rapid.T) {
 		c := Case{Backend: rapid.SampledFrom([]string{"mem", "os"}).Draw(rt, "backend"), Limits: rapid.Bool().Draw(rt, "limits")}
 		c.Tree = genTree(rt, false)
+		c.Recursive = c.Limits && rapid.Bool().Draw(rt, "recursive-limits")
+		// files named like archives (any letter case) with ordinary content
+		if len(c.Tree) > 0 && rapid.IntRange(0, 2).Draw(rt, "archive-names") == 0 {
+			for k, tries := 0, rapid.IntRange(1, 3).Draw(rt, "archive-named-files"); k < tries; k++ {
+				i := rapid.IntRange(0, len(c.Tree)-1).Draw(rt, fmt.Sprintf("archive-named%d", k))
+				if c.Tree[i].Kind == "file" {
+					old := c.Tree[i].Path
+					nw := old + rapid.SampledFrom([]string{".zip", ".ZIP", ".Jar", ".GZ", ".7Z", ".Z", ".tar.gz", ".jar"}).Draw(rt, fmt.Sprintf("archive-ext%d", k))
+					clash := false
+					for _, nd := range c.Tree {
+						if nd.Path == nw {
+							clash = true
+						}
+					}
+					if !clash {
+						c.Tree[i].Path = nw
+					}
+				}
+			}
+		}
+		// the archived directory may bear the name of a directory inside the tree
+		if rapid.IntRange(0, 3).Draw(rt, "root-named-like-an-entry") == 0 {
+			var dirs []string
+			for _, nd := range c.Tree {
+				if nd.Kind == "dir" && path.Base(nd.Path) != "." && path.Base(nd.Path) != ".." && !strings.ContainsAny(path.Base(nd.Path), "/\\") {
+					dirs = append(dirs, path.Base(nd.Path))
+				}
+			}
+			if len(dirs) > 0 {
+				c.Root = rapid.SampledFrom(dirs).Draw(rt, "root-name")
+			}
+		}
 		key, _ := json.Marshal(c)
 		ev.Case(string(key), nontrivial(c.Tree), "roundtrip/"+c.Backend, c)
 		checkRoundTrip(rt, "TestRoundTrip", c)
